@@ -83,6 +83,11 @@ func crashSeeds(thorough bool) []*CrashSeed {
 	// writes. 3 800-byte rows (one per heap page, no index on the wide column), pool large enough not to evict.
 	seeds = append(seeds, &CrashSeed{Name: "huge-txn/mem4096", MemKB: 4096, Tables: []TableDef{crashHugeT},
 		Stmts: []*Stmt{{Kind: "insert", Table: "t", Cols: []string{"k", "v"}, Rows: [][]any{{int32(1), "a1"}}}}})
+	// rows of 2 100 bytes (one per heap page; the wide column has no index): the UPDATE record of an in-place
+	// change carries the old and the new image and is larger than a page - the only record kind that can be
+	seeds = append(seeds, &CrashSeed{Name: "long-rows/mem128", MemKB: 128, Tables: []TableDef{crashHugeT},
+		Stmts: []*Stmt{{Kind: "insert", Table: "t", Cols: []string{"k", "v"}, Rows: [][]any{{int32(1), bigStr("L1", 2100)}}},
+			{Kind: "insert", Table: "t", Cols: []string{"k", "v"}, Rows: [][]any{{int32(2), "a2"}}}}})
 	return seeds
 }
 
@@ -113,6 +118,14 @@ func crashAlphabet(seed *CrashSeed, txn int) map[string]*Stmt {
 			"huge80a": {Kind: "insert", Table: "t", Cols: kv, Rows: crashHugeRows(0, 80)},
 			"huge80b": {Kind: "insert", Table: "t", Cols: kv, Rows: crashHugeRows(80, 80)},
 			"del1":    del(1),
+		}
+	}
+	if strings.HasPrefix(seed.Name, "long") {
+		return map[string]*Stmt{
+			"updLong1": upd("v", bigStr("U"+tag, 2100), 1), // same size, in place: a record of > 4 200 bytes
+			"upd2":     upd("v", "b"+tag, 2),
+			"ins":      ins(10+txn, "n"+tag),
+			"del2":     del(2),
 		}
 	}
 	if strings.HasPrefix(seed.Name, "small") {
